@@ -3,6 +3,8 @@ use std::net::{Ipv4Addr, Ipv6Addr, SocketAddr};
 
 use super::{accept, connect, ListenerAddr, Stream, RESERVED_LISTENER_ADDRS};
 use crate::{ctx, scope};
+#[cfg(era_consensus_verif)]
+use crate::verif::net_shim as tokio;
 
 /// Reserves a random port on localhost for a TCP listener.
 pub fn reserve_listener() -> ListenerAddr {
